@@ -113,6 +113,9 @@ structure St where
   up : Up := .pending
   /-- confirmations of B's downstream timeout spend when `onchainTimeoutBuried` was entered -/
   timeoutDepth : Nat := 0
+  /-- number of `RAAMonitorUpdateBlockingAction`s OTHER forwarded HTLCs hold on the downstream channel
+      (`raa_monitor_updates_held` is per channel: the `revoke_and_ack` update is parked while ANY blocker is registered) -/
+  downOther : Nat := 0
   deriving DecidableEq, Repr, Inhabited
 
 inductive Op where
@@ -139,6 +142,10 @@ inductive Op where
   | chainPreimage
   /-- the downstream channel is on chain and B's timeout spend has `depth` confirmations -/
   | chainTimeout (depth : Nat)
+  /-- another HTLC's `update_fulfill_htlc` registers its RAA blocker on the downstream channel -/
+  | addDownOther
+  /-- ... and that blocker is removed by its own completion action (`handle_monitor_update_release`) -/
+  | removeDownOther
   /-- B releases `update_fulfill_htlc` to A -/
   | sendFulfilUp
   /-- B releases `update_fail_htlc` to A -/
@@ -170,7 +177,7 @@ def upBusy (s : St) : Bool :=
 
 /-- mirrors `handle_monitor_update_release`: with no blocker left the parked downstream update flies -/
 def releaseBlocked (s : St) : St :=
-  if s.downRaaUpdate == .blocked && !s.blocker then handRaa s else s
+  if s.downRaaUpdate == .blocked && !s.blocker && s.downOther == 0 then handRaa s else s
 
 /-- mirrors `handle_monitor_update_completion_actions` (`EmitEventOptionAndFreeOtherChannel` /
     `FreeDuplicateClaimImmediately`): the completion actions of the upstream channel run when ALL its in-flight
@@ -227,9 +234,11 @@ def step (s : St) : Op → St
     if s.alive && s.downCsUpdate == .durable && s.downRaaUpdate == .notYet then
       match s.down with
       | .fulfilSeen =>
-        if s.blocker then { s with down := .removedByFulfil, downRaaUpdate := .blocked }
+        if s.blocker || s.downOther != 0 then { s with down := .removedByFulfil, downRaaUpdate := .blocked }
         else handRaa { s with down := .removedByFulfil }
-      | .failSeen => handRaa { s with down := .removedByFail }
+      | .failSeen =>
+        if s.downOther != 0 then { s with down := .removedByFail, downRaaUpdate := .blocked }
+        else handRaa { s with down := .removedByFail }
       | _ => s
     else s
   | .complete .up =>
@@ -264,6 +273,9 @@ def step (s : St) : Op → St
     if s.alive && (s.down == .offered || s.down == .fulfilSeen || s.down == .failSeen) && decide (ANTI_REORG_DELAY ≤ d) then
       { s with down := .onchainTimeoutBuried, timeoutDepth := d }
     else s
+  | .addDownOther => if s.alive then { s with downOther := s.downOther + 1 } else s
+  | .removeDownOther =>
+    if s.alive && s.downOther != 0 then releaseBlocked { s with downOther := s.downOther - 1 } else s
   | .sendFulfilUp =>
     if s.alive && s.up == .pending && fulfilAllowed s then { s with up := .fulfilSent } else s
   | .sendFailUp =>
